@@ -35,14 +35,23 @@ theorem survives_exactly (listed : Path → Bool) (l : List Ent)
 list has no top-level `.` entry. -/
 theorem delete_nothing (ioErrors : Nat) (dryRun : Bool) (names : List Str) (tree : List Ent)
     (h : ioErrors > 0 ∨ dryRun = true ∨ names.contains [46] = false) :
-    deleteFiles ioErrors dryRun names tree = [] ∧ (deleteFilesV ioErrors dryRun names tree).1 = [] := by
+    deleteFiles ioErrors dryRun names tree = [] ∧ ∀ rules, (deleteFilesV ioErrors dryRun names rules tree).1 = [] := by
   unfold deleteFiles deleteFilesV
   rcases h with h | h | h
   · simp [h]
   · simp only [h, if_true]
-    constructor <;> (split <;> (try split) <;> rfl)
+    refine ⟨by split <;> (try split) <;> rfl, fun _ => by split <;> (try split) <;> rfl⟩
   · simp only [h, Bool.not_false, if_true]
-    constructor <;> (split <;> rfl)
+    refine ⟨by split <;> rfl, fun _ => by split <;> rfl⟩
+
+/-- **Protected entries survive**: with the user's exclude rules, nothing that is listed and nothing
+the rules protect is removed, and without rules the protected walk is the plain one. -/
+theorem protected_never_removed (listed : Path → Bool) (protect : Path → Bool → Bool) (l : List Ent) :
+    ∀ p ∈ delWalkP listed protect l, listed p = false ∧ ∃ e ∈ l, e.path = p ∧ protect p e.isDir = false :=
+  delWalkP_sound listed protect l
+
+theorem no_rules_plain_walk (listed : Path → Bool) (l : List Ent) :
+    delWalkP listed (fun _ _ => false) l = delWalk listed l := delWalkP_noRules listed l
 
 /-- the walk the code really performs (with `io/fs.ValidPath`'s UTF-8 restriction on directories it
 descends into) is the ideal walk whenever every directory name is valid UTF-8 -/
